@@ -94,6 +94,20 @@ fn main() {
         std::process::exit(exitcode::DATAERR);
     }
 
+    // All worker threads are spawned before the first one is joined, so an absurd number of threads exhausts the resources
+    // of the process (and more threads than nodes to solve in parallel are of no use anyway).
+    const MAX_NUM_THREADS: u32 = 1024;
+    let mut num_threads: u32 = *args
+        .get_one("num_threads")
+        .unwrap_or(&(num_cpus::get() as u32));
+    if num_threads > MAX_NUM_THREADS {
+        warn!(
+            "Using {} worker threads instead of the requested {}.",
+            MAX_NUM_THREADS, num_threads
+        );
+        num_threads = MAX_NUM_THREADS;
+    }
+
     // Execute assignment algorithm
     let courses = Arc::new(courses);
     let participants = Arc::new(participants);
@@ -102,9 +116,7 @@ fn main() {
         participants.clone(),
         rooms.as_ref(),
         args.get_flag("report_no_solution"),
-        *args
-            .get_one("num_threads")
-            .unwrap_or(&(num_cpus::get() as u32)),
+        num_threads,
     );
     info!("Finished solving course assignment. {}", statistics);
 
